@@ -18,6 +18,7 @@ import (
 	"net/url"
 	"strings"
 	"unicode"
+	"unicode/utf8"
 )
 
 // URLKeyer describes the interface implemented by types that can generate a
@@ -146,7 +147,8 @@ func fromHex(c byte) byte {
 
 // isUnreserved reports whether r is an unreserved character per RFC 3986 §2.3.
 func isUnreserved(r rune) bool {
-	return unicode.IsLetter(r) || unicode.IsDigit(r) ||
+	// RFC 3986 §2.3: ALPHA / DIGIT / "-" / "." / "_" / "~" (ASCII only)
+	return r < utf8.RuneSelf && (unicode.IsLetter(r) || unicode.IsDigit(r)) ||
 		r == '-' || r == '.' || r == '_' || r == '~'
 }
 
